@@ -45,6 +45,7 @@ func drawStore(r *rand.Rand) store.Cfg {
 		c.PermSeed = r.Int63n(1<<30) + 1
 	}
 	c.SharedLabels = r.Intn(2) == 0
+	c.Trim = r.Intn(3) == 0 // a storage may return only what the querier range and the hints ask for
 	c.YieldEvery = []int{0, 1, 1, 2, 3, 7}[r.Intn(6)]
 	return c
 }
